@@ -3,12 +3,14 @@
 -/
 import Oracle.Avc
 import Oracle.Kxps
+import Oracle.Json
 
 namespace Oracle
 
 def handlers : List (String × (String → List String → Option String)) := [
   ("avc.", Oracle.Avc.handle),
-  ("kxps.", Oracle.Kxps.handle)
+  ("kxps.", Oracle.Kxps.handle),
+  ("json.", Oracle.Json.handle)
 ]
 
 def dispatch (op : String) (args : List String) : Option String :=
